@@ -7,6 +7,7 @@ import builtins
 import contextlib
 import io
 import os
+import re
 import warnings
 
 
@@ -95,6 +96,15 @@ class FsSeam:
         return False
 
 
+_ADDR = re.compile(r'0x[0-9a-fA-F]+')
+_RUNDIR = re.compile(r'/\S*regions-verif/[^/\s\'"]+')
+
+
+def _clean_text(s):
+    """Message text without memory addresses and run-specific paths."""
+    return _RUNDIR.sub('<run>', _ADDR.sub('0x', s))
+
+
 def _filter_canary(mode, wlist, category):
     """Is a library warning still treated the way the run configured it?
 
@@ -148,4 +158,5 @@ def warnings_mode(mode, record):
             for w in wlist:
                 fn = (w.filename or '')
                 if '/regions/' in fn:
-                    record.append([w.category.__name__, str(w.message)[:200]])
+                    record.append([w.category.__name__,
+                                   _clean_text(str(w.message))[:200]])
